@@ -57,30 +57,38 @@ inline constexpr void convert_type_fundamental(T_To& to,
       // Eg: int64_t from int32_t, uint64_t from uint32_t
     } else if constexpr (is_unsigned_v<T_To> && is_unsigned_v<T_From>) {
       // Eg: uint32_t from uint64_t
+      RLBOX_VERIF_READ(&from);
       dynamic_check(from <= numeric_limits<T_To>::max(), err_msg);
     } else if constexpr (is_signed_v<T_To> && is_signed_v<T_From>) {
       // Eg: int32_t from int64_t
+      RLBOX_VERIF_READ(&from);
       dynamic_check(from >= numeric_limits<T_To>::min(), err_msg);
+      RLBOX_VERIF_READ(&from);
       dynamic_check(from <= numeric_limits<T_To>::max(), err_msg);
     } else if constexpr (is_unsigned_v<T_To> && is_signed_v<T_From>) {
       if constexpr (sizeof(T_To) < sizeof(T_From)) {
         // Eg: uint32_t from int64_t
+        RLBOX_VERIF_READ(&from);
         dynamic_check(from >= 0, err_msg);
         auto to_max = numeric_limits<T_To>::max();
+        RLBOX_VERIF_READ(&from);
         dynamic_check(from <= static_cast<T_From>(to_max), err_msg);
       } else {
         // Eg: uint32_t from int32_t, uint64_t from int32_t
+        RLBOX_VERIF_READ(&from);
         dynamic_check(from >= 0, err_msg);
       }
     } else if constexpr (is_signed_v<T_To> && is_unsigned_v<T_From>) {
       if constexpr (sizeof(T_To) <= sizeof(T_From)) {
         // Eg: int32_t from uint32_t, int32_t from uint64_t
         auto to_max = numeric_limits<T_To>::max();
+        RLBOX_VERIF_READ(&from);
         dynamic_check(from <= static_cast<T_From>(to_max), err_msg);
       } else {
         // Eg: int64_t from uint32_t
       }
     }
+    RLBOX_VERIF_READ(&from);
     to = static_cast<T_To>(from);
   }
   else
